@@ -47,9 +47,11 @@ def oracle(content, args=()):
 def concretise(cls, prog_text, big=False):
     """bytes of a file of the given content class, derived from one program text (big: more than 256 KiB)"""
     if big:
-        prog_text = (prog_text + "\n") * (300 * 1024 // (len(prog_text) + 1) + 1)
+        # beyond 256 KiB, and every other time beyond 1 MiB (thresholds at which a buffer might be treated differently)
+        target = 300 * 1024 if (len(prog_text) % 2 == 0) else 1300 * 1024
+        prog_text = (prog_text + "\n") * (target // (len(prog_text) + 1) + 1)
     rc, F = oracle(prog_text.encode())
-    if rc != 0 or not F.endswith(b"\n") or len(F) > 2_000_000:      # (repeated declarations can nest: quadratic indentation)
+    if rc != 0 or not F.endswith(b"\n") or len(F) > 6_000_000:      # (repeated declarations can nest: quadratic indentation)
         return None
     if cls == "formatted":
         return F
@@ -69,6 +71,11 @@ def concretise(cls, prog_text, big=False):
     if cls == "empty":
         return b""
     if cls == "undecodable":
+        k = len(prog_text) % 3
+        if k == 1:
+            return b"\xff\xfe" + F[:20].decode("utf-8", "ignore").encode("utf-16-le") + b"\x3b"        # UTF-16LE with a dangling byte
+        if k == 2:
+            return b"\xfe\xff" + "a := ".encode("utf-16-be") + b"\xd8\x00" + ";".encode("utf-16-be")   # UTF-16BE with a lone surrogate
         return b"a\x80\xc3(" + F[:10]
     return None
 
@@ -76,7 +83,9 @@ def concretise(cls, prog_text, big=False):
 def check_class(cls, content):
     """R4: the concrete content really is in its class (judged with the oracle)"""
     if cls in ("undecodable",):
-        return oracle(content)[0] != 0
+        # malformed by construction (invalid UTF-8 byte, UTF-16 with a dangling byte or a lone surrogate - CliEnc.tla): the
+        # binary under test is not asked whether it agrees
+        return True
     rc, out = oracle(content)
     if rc != 0:
         return False
@@ -116,6 +125,8 @@ def run_modes_scenario(idx, sc, texts):
         for k, (f, cls) in enumerate(sorted(sc["class"].items())):
             names = [{0: "f1.pas", 1: "sub/f2.dpr", 2: "f3.PAS"}, {0: "a b.Dpk", 1: "deep/er/Gr\u00f6\u00dfe.pas", 2: "c.DPR"}][(idx // 4) % 2]
             name = names.get(k, f"g{k}.pas") if sc["form"] in ("dir", "files_from", "file") else f"f{k + 1}.pas"
+            if sc["form"] in ("file", "files_from") and k == 2 and (idx // 8) % 2 == 1:
+                name = ["defs.inc", "prog.lpr", "noext"][(idx // 16) % 3]       # an explicitly named file is handled whatever it is called
             if twins and k in (0, 2):
                 name = "Unit1.pas" if k == 0 else "unit1.pas"
             path = os.path.join(d, name)
@@ -585,9 +596,14 @@ def run_batch_scenario(idx, sc, texts):
                 body = b""
             if sc.get("mode") == "stdout":
                 body = ("\n".join([t] * rnd.choice([1, 5, 40, 80, 200]))).encode()
-            enc = rnd.choice(["utf8", "utf8", "utf8bom", "utf16le"]) if sc.get("mode") != "stdout" else "utf8"
+            enc = rnd.choice(["utf8", "utf8", "utf8bom", "utf16le", "utf8bom_feff"]) if sc.get("mode") != "stdout" else "utf8"
+            if sc.get("big") and k == 0:
+                body = body * (sc["big"] // (len(body) + 1) + 1)
+                enc = "utf8"
             if enc == "utf8bom":
                 body = b"\xef\xbb\xbf" + body
+            elif enc == "utf8bom_feff":
+                body = b"\xef\xbb\xbf\xef\xbb\xbf" + body            # the text itself starts with U+FEFF
             elif enc == "utf16le":
                 body = b"\xff\xfe" + body.decode().encode("utf-16-le")
             if kind == "undecodable":
@@ -753,6 +769,62 @@ def exit_scenarios(c, tier):
         for p in problems:
             out.append((sc, p))
     return ran, out
+
+
+# ------------------------------------------------------------------------------------------------ C01 through the CLI
+
+def _decode_by_bom(b):
+    if b.startswith(b"\xef\xbb\xbf"):
+        return b[3:].decode("utf-8")
+    if b.startswith(b"\xff\xfe"):
+        return b[2:].decode("utf-16-le")
+    if b.startswith(b"\xfe\xff"):
+        return b[2:].decode("utf-16-be")
+    return b.decode("utf-8")
+
+
+def _nonblank(t):
+    return "".join(ch for ch in t if not (ord(ch) <= 0x20 or ch == "\u3000")).lower()
+
+
+def run_nonblank_batch(idx, sc, texts):
+    """sc: {n, big, seed}: files of several sizes and BOM forms formatted in ONE invocation on one worker thread; every file must
+    keep its non-blank characters (C01 as the command line delivers it: nothing of another file, no character of the text lost)"""
+    root = tempfile.mkdtemp(prefix=f"a{idx}_", dir=CLI_ROOT)
+    problems = []
+    try:
+        rnd = random.Random(sc["seed"])
+        before, paths = {}, []
+        for k in range(sc["n"]):
+            t = rnd.choice(texts)
+            body = t
+            if k == 0 and sc.get("big"):
+                body = (t + "\n") * (sc["big"] // (len(t) + 1) + 1)
+            form = ["utf8", "utf8bom", "utf8bom_feff", "utf16le", "utf16be_feff"][(k + idx) % 5] if k > 0 else "utf8"
+            raw = {"utf8": body.encode(), "utf8bom": b"\xef\xbb\xbf" + body.encode(), "utf8bom_feff": b"\xef\xbb\xbf" + ("\ufeff" + body).encode(),
+                   "utf16le": b"\xff\xfe" + body.encode("utf-16-le"), "utf16be_feff": b"\xfe\xff" + ("\ufeff" + body).encode("utf-16-be")}[form]
+            p = os.path.join(root, f"n{k:02d}.pas")
+            with open(p, "wb") as fh:
+                fh.write(raw)
+            before[p] = raw
+            paths.append(p)
+        rc, out, err = run_bin(paths, root, env={"RAYON_NUM_THREADS": "1"}, timeout=300)
+        what = f"{sc['n']} files in one invocation, one thread, first file {len(before[paths[0]])} bytes"
+        if rc != 0:
+            return [], True
+        for p in paths:
+            now = open(p, "rb").read()
+            try:
+                a, b = _nonblank(_decode_by_bom(before[p])), _nonblank(_decode_by_bom(now))
+            except UnicodeDecodeError:
+                problems.append({"clause": "sequence", "detail": f"{os.path.basename(p)}: the result is not decodable in the encoding of its byte-order mark ({what})"})
+                continue
+            if a != b:
+                i = next((k for k in range(min(len(a), len(b))) if a[k] != b[k]), min(len(a), len(b)))
+                problems.append({"clause": "sequence", "detail": f"{os.path.basename(p)}: {len(a)} non-blank characters became {len(b)}; first difference at {i}: {a[i:i + 12]!r} vs {b[i:i + 12]!r} ({what})"})
+        return problems, False
+    finally:
+        shutil.rmtree(root, ignore_errors=True)
 
 
 # ------------------------------------------------------------------------------------------------ C03 through the CLI
